@@ -120,8 +120,7 @@ func TestVerifC13Race(t *testing.T) {
 	close(stop)
 	wg.Wait()
 	tag := internal.VerifTag("svc", false)
-	quiet := etcd.QuiesceLoose([]string{tag}, 10*time.Second)
-	time.Sleep(5 * time.Millisecond)
+	quiet := etcd.QuiesceLoose([]string{tag}, 20*time.Second)
 	set := map[string]bool{}
 	for _, v := range store {
 		set[v] = true
@@ -131,6 +130,10 @@ func TestVerifC13Race(t *testing.T) {
 		want = append(want, v)
 	}
 	sort.Strings(want)
+	// the machine may be very busy: give the last handled response the time to reach the containers
+	for i := 0; i < 2000 && fmt.Sprint(verifSorted(subA.Values())) != fmt.Sprint(want); i++ {
+		time.Sleep(5 * time.Millisecond)
+	}
 	res := map[string]any{"id": 0, "quiet": quiet, "want": want, "valuesA": verifSorted(subA.Values()),
 		"valuesB": verifSorted(subB.Values()), "notes": atomic.LoadInt64(&notes)}
 	subA.Close()
